@@ -244,6 +244,11 @@ func (c *compiler) StringNode(node *ast.StringNode) {
 }
 
 func (c *compiler) ConstantNode(node *ast.ConstantNode) {
+	if node.Value == nil {
+		// e.g. a ConstExpr function that returned nil
+		c.emit(OpNil)
+		return
+	}
 	c.emitPush(node.Value)
 }
 
